@@ -43,6 +43,8 @@ pub struct GenCfg {
     pub scenario_weight: u32,
     /// long straight-line bodies: up to this many extra cheap statements appended to function bodies
     pub long_bodies: usize,
+    /// up to this many extra trivial globals (every global is a chunk-level Lua local)
+    pub many_globals: usize,
     /// boundary literals
     pub extreme_literals: bool,
 }
@@ -78,6 +80,7 @@ impl GenCfg {
             lexical_names: false,
             scenario_weight: 2,
             long_bodies: 0,
+            many_globals: 0,
             extreme_literals: true,
         }
     }
@@ -1693,6 +1696,13 @@ impl<'t, 'a, 'b> Gen<'t, 'a, 'b> {
                 self.gen_global_fn();
             } else {
                 self.gen_global_value();
+            }
+        }
+        if self.cfg.many_globals > 0 && self.t.chance(1, 6) {
+            let n = self.t.below(self.cfg.many_globals + 1);
+            for k in 0..n {
+                let v = self.fresh("g", Ty::Int, VarKind::Global, false);
+                self.p.globals.push(Global { var: v, mutable: false, value: int(k as i64) });
             }
         }
         // start
